@@ -39,6 +39,8 @@ def build_registry():
     from contracts import class_c, mapping_c
     class_c.register(reg)
     mapping_c.register(reg)
+    from contracts import method_frame_c
+    method_frame_c.register(reg)
     return reg
 
 
@@ -106,7 +108,73 @@ def _c18_hb(reg, opts):
                  'value=%r' % (heartbeat.Heartbeat.value,), probe='pamqp.heartbeat.Heartbeat.value')]
 
 
+def _names():
+    from contracts import class_c, mapping_c, method_frame_c
+    return class_c, mapping_c, method_frame_c
+
+
+DEC = 'pamqp.decode.'
+DEC_PRIM = [DEC + n for n in ('bit', 'boolean', 'octet', 'short_short_int', 'short_short_uint', 'short_int', 'short_uint',
+                              'long_int', 'long_uint', 'long_long_int', 'floating_point', 'double', 'byte_array',
+                              'long_str', 'short_str', 'void')]
+ENC_PRIM = [ENC + n for n in ('boolean', 'byte_array', 'double', 'floating_point', '_string', 'short_string', 'long_string',
+                              'octet', 'short_int', 'short_uint', 'long_int', 'long_uint', 'long_long_int')]
+
+
+def _c19():
+    class_c, mapping_c, mf = _names()
+    return mapping_c.names()
+
+
+def _c13():
+    class_c, mapping_c, mf = _names()
+    from spec import tables
+    val = set(tables.VALIDATING)
+    out = class_c.names('validate') + class_c.names('init')
+    out += [('pamqp.base.Frame.marshal[%s]' % n, {'invalid-arguments', 'encoded'}) for n in tables.VALIDATING]
+    out += [('pamqp.base.Frame.unmarshal[%s]' % n, {'grammar-valid-arguments'}) for n in tables.VALIDATING]
+    return out
+
+
+def _c04():
+    class_c, mapping_c, mf = _names()
+    return (ENC_PRIM + [FRM + '_marshal', FRM + 'marshal', FRM + '_marshal_content_body_frame',
+                        'pamqp.header.ProtocolHeader.marshal', 'pamqp.heartbeat.Heartbeat.marshal',
+                        'pamqp.body.ContentBody.marshal']
+            + class_c.names('marshal') + mf.names('marshal_method_frame') + mf.names('frame_marshal'))
+
+
+def _c01():
+    class_c, mapping_c, mf = _names()
+    return (ENC_PRIM + DEC_PRIM + [FRM + '_marshal', FRM + 'frame_parts']
+            + class_c.names('marshal') + [(n, {'grammar-valid-arguments'}) for n in class_c.names('unmarshal')]
+            + mf.names('frame_marshal') + mf.names('marshal_method_frame')
+            + [(n, {'method'}) for n in mf.names('unmarshal_method_frame')[:-1]] + mf.names('unmarshal_g'))
+
+
+def _c05():
+    class_c, mapping_c, mf = _names()
+    return (DEC_PRIM + [FRM + 'frame_parts', (FRM + 'unmarshal', UNMARSHAL_RETURNS)]
+            + [(n, {'grammar-valid-arguments'}) for n in class_c.names('unmarshal')]
+            + [(n, {'method'}) for n in mf.names('unmarshal_method_frame')[:-1]] + mf.names('unmarshal_g'))
+
+
+def _c09():
+    class_c, mapping_c, mf = _names()
+    return (DEC_PRIM + [FRM + 'frame_parts', FRM + '_unmarshal_protocol_header_frame', FRM + '_unmarshal_body_frame',
+                        (FRM + 'unmarshal', UNMARSHAL_RAISES | {'method', 'content-header'})]
+            + [(n, {'anything-else'}) for n in class_c.names('unmarshal')]
+            + mf.names('unmarshal_method_frame'))
+
+
 PROPS = {
+    'C19': PropSpec('C19', contracts=_c19(), floor=1000),
+    'C13': PropSpec('C13', contracts=_c13(), ground=['C13.name-character-class'], floor=800,
+                    assumptions=['I5: typed domains; None in a validated field is outside the domain (validation skips None by design)']),
+    'C04': PropSpec('C04', contracts=_c04(), lemmas=[], ground=['C18.heartbeat-constant'], floor=2000),
+    'C01': PropSpec('C01', contracts=_c01(), lemmas=_names()[2].names('roundtrip'), floor=3000),
+    'C05': PropSpec('C05', contracts=_c05(), floor=1500),
+    'C09': PropSpec('C09', contracts=_c09(), floor=1000),
     'C06': PropSpec('C06', contracts=FRAME_ENV + [(FRM + 'unmarshal', UNMARSHAL_RETURNS | {'bad-frame-end', 'heartbeat-incomplete-or-bad-end'}), FRM + 'unmarshal(env)'], lemmas=[L + 'c06_trailing_bytes'], floor=200,
                     assumptions=['method and content-header payload decoders enter through their total contracts '
                                  '(any frame object of the right kind, or UnmarshalingException)']),
